@@ -135,7 +135,7 @@ impl LinkInfo {
             + external_link_state.last_offset_uncertainty * config.select_offset_uncertainty_window
             + (delay + external_link_state.root_delay) * config.select_delay_uncertainty_window;
 
-        if half_window_size < config.select_max_window_size {
+        if half_window_size >= 0.0 && half_window_size < config.select_max_window_size {
             Some(OffsetWindow {
                 low: avg_offset - internal_offset - half_window_size,
                 high: avg_offset - internal_offset + half_window_size,
